@@ -52,6 +52,8 @@ StringDictionaryPFC::StringDictionaryPFC(IteratorDictString *it,
     this->bucketsize = 2;
   } else
     this->bucketsize = bucketsize;
+  // The parameter hides the member below: both must hold the value in use
+  bucketsize = this->bucketsize;
 
   this->buckets = 0;
   this->bytesStrings = 0;
